@@ -174,6 +174,61 @@ func verifyDSWithWork(
 	return false, lastErr
 }
 
+// AnchoredKeysWithWork returns the keys of keyMap that a supported DS record
+// of parentDSSet authenticates, grouped by key tag like keyMap itself.
+//
+// RFC 4035 §5.2: the DNSKEY RRset of a zone is authentic only if one of its
+// signatures verifies under a key the parent's DS RRset vouches for. A key
+// that merely sits in the RRset next to such a key proves nothing about the
+// RRset it arrived in, so the RRset's own signature must be checked against
+// this subset and not against every key it carries.
+func AnchoredKeysWithWork(
+	keyMap map[uint16][]*dns.DNSKEY,
+	parentDSSet []dns.RR,
+	work DSDigestWork,
+) (map[uint16][]*dns.DNSKEY, error) {
+	anchored := make(map[uint16][]*dns.DNSKEY)
+	for _, parentDS := range uniqueSortedDSRecords(parentDSSet) {
+		if !IsSupportedDS(parentDS) {
+			continue
+		}
+		wantDigest, decodeErr := hex.DecodeString(parentDS.Digest)
+		if decodeErr != nil || len(wantDigest) == 0 {
+			continue
+		}
+		var candidateUsed uint32
+		for _, ksk := range uniqueSortedDNSKEYs(keyMap[parentDS.KeyTag]) {
+			if !usableDSCandidate(parentDS, ksk) {
+				continue
+			}
+			if work != nil {
+				if err := work.CheckDNSKEYCandidate(candidateUsed); err != nil {
+					return nil, wrapWorkError(err)
+				}
+			}
+			ok, err := runDSDigestMatch(work, ksk, parentDS.DigestType, wantDigest)
+			if err != nil {
+				return nil, err
+			}
+			candidateUsed++
+			if !ok {
+				continue
+			}
+			listed := false
+			for _, have := range anchored[parentDS.KeyTag] {
+				if have == ksk {
+					listed = true
+					break
+				}
+			}
+			if !listed {
+				anchored[parentDS.KeyTag] = append(anchored[parentDS.KeyTag], ksk)
+			}
+		}
+	}
+	return anchored, nil
+}
+
 type dnskeyIdentity struct {
 	name      string
 	class     uint16
